@@ -141,6 +141,11 @@ func (g *irGenCtx) genValidator(ty string) string {
 				"enum=", "enum=|", "pattern=", "foo=bar", "=", "==", "required=", "dive", "omitempty", "é=ü", "min=9999999999999999999999"}))
 			continue
 		}
+		if r.Chance(1, 3) {
+			// the same rules with values drawn from a wider range (every keyword slot of both converters)
+			rules = append(rules, g.wideRule(ty))
+			continue
+		}
 		rules = append(rules, rng.Pick(r, pool))
 	}
 	sep := ","
@@ -151,6 +156,64 @@ func (g *irGenCtx) genValidator(ty string) string {
 }
 
 var badValidators = os.Getenv("VH_BAD_VALIDATORS") != ""
+
+// wideRule: one rule the converters understand for this type, its value drawn from a range instead of a fixed
+// pool; now and then (1 in 12) a value only one converter reads (negative or unparsable length, unparsable bound)
+func (g *irGenCtx) wideRule(ty string) string {
+	r := g.r
+	base := strings.TrimPrefix(ty, "[]")
+	num := func() string {
+		switch r.Intn(4) {
+		case 0:
+			return fmt.Sprint(r.Intn(200) - 100)
+		case 1:
+			return fmt.Sprint(r.Intn(10))
+		case 2:
+			return "0"
+		default:
+			return fmt.Sprint(r.Intn(100000))
+		}
+	}
+	dec := func() string {
+		if r.Bool() {
+			return num()
+		}
+		return fmt.Sprintf("%d.%d", r.Intn(50)-10, 1+r.Intn(99))
+	}
+	cnt := func() string { return fmt.Sprint(r.Intn(40)) }
+	odd := r.Chance(1, 12)
+	switch {
+	case strings.HasPrefix(ty, "[]"):
+		if odd {
+			return rng.Pick(r, []string{"minItems=-2", "maxItems=x", "uniqueItems=maybe", "minItems=", "oneof=a b"})
+		}
+		return rng.Pick(r, []string{"minItems=" + cnt(), "maxItems=" + cnt(), "uniqueItems=" + rng.Pick(r, []string{"true", "false", "1", "0", "T"})})
+	case base == "string":
+		if odd {
+			return rng.Pick(r, []string{"min=-1", "min=abc", "len=x", "len=-3", "max=", "max=abc", "gt=3", "minItems=2"})
+		}
+		return rng.Pick(r, []string{"min=" + cnt(), "max=" + cnt(), "len=" + cnt(), "oneof=1 2 x", "oneof=true false", "oneof=" + num() + " " + num(),
+			"enum=1|true|x", "enum=" + num() + "|" + num(), "oneof=1.5 a", "pattern=^[0-9]+$", "email", "datetime", "ip"})
+	case base == "bool":
+		if odd {
+			return rng.Pick(r, []string{"oneof=maybe true", "min=1", "enum=x|true"})
+		}
+		return rng.Pick(r, []string{"oneof=true false", "oneof=true", "enum=true|false", "enum=false"})
+	case base == "float32" || base == "float64":
+		if odd {
+			return rng.Pick(r, []string{"gt=abc", "lte=", "oneof=x 1.5", "max=q"})
+		}
+		return rng.Pick(r, []string{"gt=" + dec(), "gte=" + dec(), "lt=" + dec(), "lte=" + dec(), "min=" + dec(), "max=" + dec(),
+			"oneof=" + dec() + " " + dec(), "enum=" + dec() + "|" + dec()})
+	case isPrim(base):
+		if odd {
+			return rng.Pick(r, []string{"gt=abc", "gte=", "lt=x", "oneof=1 x 3", "enum=1|x", "len=3", "max=--1"})
+		}
+		return rng.Pick(r, []string{"gt=" + num(), "gte=" + num(), "lt=" + num(), "lte=" + num(), "min=" + num(), "max=" + num(),
+			"oneof=" + num() + " " + num() + " " + num(), "enum=" + num() + "|" + num(), "oneof=+5 007"})
+	}
+	return "required"
+}
 
 func isPrim(s string) bool {
 	for _, p := range irPrims {
